@@ -67,7 +67,7 @@ pub fn eval(c: &Case) -> (Vec<(String, String)>, usize, bool) {
     }
     let mut prev = c.q;
     prev[5] = c.j6;
-    let tag = format!("{}/dof{}/{}{}", c.entry.name(), p.dof, c.stack.shape(), if c.tilt != 0.0 { "/reorient-in-place" } else { "" });
+    let tag = format!("{}/dof{}/{}{}{}", c.entry.name(), p.dof, c.stack.shape(), if c.stack.limits.is_some() { "+j6limits" } else { "" }, if c.tilt != 0.0 { "/reorient-in-place" } else { "" });
     let sols = match call(k.as_ref(), c.entry, &to_na(&want), &prev, c.j6) {
         Ok(s) => s,
         Err(m) => {
@@ -101,7 +101,13 @@ pub fn eval(c: &Case) -> (Vec<(String, String)>, usize, bool) {
     let inner = c.stack.inner_joints(&c.q);
     let flange = fkref::fk(p, &inner);
     let th = fkref::internal_angles(p, &inner);
-    let regular = c.tilt == 0.0 && expected_branches(p, &flange).is_some() && th[4].sin().abs() > c.regular_above;
+    // with joint limits on the innermost robot the originating configuration is owed only when the J6 the entry point
+    // must hand back satisfies the J6 limit (all other joints of the limited stacks are unconstrained)
+    let j6_allowed = match &c.stack.limits {
+        None => true,
+        Some(l) => crate::common::arc::arc_member(l.from[5], l.to[5], want_j6, 1e-9) == crate::common::arc::ArcVerdict::Inside,
+    };
+    let regular = j6_allowed && c.tilt == 0.0 && expected_branches(p, &flange).is_some() && th[4].sin().abs() > c.regular_above;
     if regular {
         let mut orig = c.q;
         orig[5] = want_j6;
@@ -132,7 +138,14 @@ fn stacks(p: &Parameters) -> Vec<StackDesc> {
         StackDesc::bare(*p).with(Wrap::Base(base)),
         StackDesc::bare(*p).with(Wrap::Base(base)).with(Wrap::Tool(axial)),
         StackDesc::bare(*p).with(Wrap::Tool(axial)).with(Wrap::Base(base)),
+        // joint limits on J6 only, off centre (the range contains 0, its mid-point is 30 degrees); J1..J5 unconstrained
+        StackDesc::bare(*p).limited(j6_limits()),
+        StackDesc::bare(*p).limited(j6_limits()).with(Wrap::Base(base)).with(Wrap::Tool(axial)),
     ]
+}
+
+fn j6_limits() -> Limits {
+    Limits { from: [0.0, 0.0, 0.0, 0.0, 0.0, (-40.0f64).to_radians()], to: [0.0, 0.0, 0.0, 0.0, 0.0, 100.0f64.to_radians()], weight: 0.4 }
 }
 
 fn theta_axes(thorough: bool) -> [Vec<f64>; 6] {
@@ -152,7 +165,7 @@ fn theta_axes(thorough: bool) -> [Vec<f64>; 6] {
 
 pub fn run(ctx: &Ctx) -> Report {
     let thorough = !ctx.quick();
-    let mut robots: Vec<Parameters> = if thorough { robot_axis(1, &[5, 6]).into_iter().step_by(11).collect() } else { robot_axis(0, &[5, 6]) };
+    let mut robots: Vec<Parameters> = if thorough { robot_axis(1, &[5, 6]).into_iter().step_by(14).collect() } else { robot_axis(0, &[5, 6]) };
     // a 5-DOF robot as the YAML loader produces it: J6 sign 0
     let mut blocked = robots[1];
     blocked.dof = 5;
@@ -179,7 +192,7 @@ pub fn run(ctx: &Ctx) -> Report {
         }
     }
     let ax = theta_axes(thorough);
-    let nst = 6usize;
+    let nst = 8usize;
     let sizes: Vec<usize> = [robots.len(), nst].into_iter().chain(ax.iter().map(|a| a.len())).collect();
     let n = par::product(&sizes);
     let mut rep = par::run(n, |idx, r| {
@@ -211,7 +224,7 @@ pub fn run(ctx: &Ctx) -> Report {
                         continue;
                     }
                     r.transitions += 1;
-                    r.sig(format!("{}:dof{}:{}:{}:{}", entry.name(), p.dof, stack.shape(), nsol, if tilt != 0.0 { "tilted" } else { "fk" }));
+                    r.sig(format!("{}:dof{}:{}{}:{}:{}", entry.name(), p.dof, stack.shape(), if stack.limits.is_some() { "+j6limits" } else { "" }, nsol, if tilt != 0.0 { "tilted" } else { "fk" }));
                     if (idx + ji as u64) % 300_007 == 0 {
                         r.sample(|| c.json());
                     }
@@ -259,7 +272,7 @@ pub fn run(ctx: &Ctx) -> Report {
         rep.fail("C06/declared-dof-lost/urdf-parameters".to_string(), n + 9_000_000 + i as u64, json!({"kind": "urdf-declared-dof"}), d.clone());
     }
     rep.traces_validated = rep.transitions;
-    rep.rule = "robots R (dof 5 and 6, one with J6 sign 0, four declared 5-DOF through a URDF description object and parameters()) x stacks {bare, axial tool, z-shift tool, base, base>tool, tool>base} x theta lattice x \
+    rep.rule = "robots R (dof 5 and 6, one with J6 sign 0, four declared 5-DOF through a URDF description object and parameters()) x stacks {bare, axial tool, z-shift tool, base, base>tool, tool>base, bare and base>tool with off-centre J6 limits -40..100 deg} x theta lattice x \
                 J6 alphabet {0,0.55,-3,pi,7.5,1e3} x entry points; oracle: tool point/axis through the stack's reference FK, J6 bit-equal to the \
                 caller's, originating J1..J5 present and answer list non-empty when the configuration is regular; history variant for the \
                 continuing entry points: previous = q already at the requested tool point, requested axis tilted by {0.35, -2.0} rad (soundness clauses only); \
